@@ -123,10 +123,17 @@ func (c *fileCtx) ty(t *Ty) string {
 		if d == "" {
 			d = "chan"
 		}
+		if t.Dir == "" && t.Elem.K == "chan" && t.Elem.Dir == "<-chan" {
+			return d + " (" + c.ty(t.Elem) + ")"
+		}
 		return d + " " + c.ty(t.Elem)
 	case "func":
 		var ps []string
-		for _, x := range t.Params {
+		for i, x := range t.Params {
+			if t.Var && i == len(t.Params)-1 {
+				ps = append(ps, "..."+c.ty(x.Elem))
+				continue
+			}
 			ps = append(ps, c.ty(x))
 		}
 		s := "func(" + strings.Join(ps, ", ") + ")"
@@ -280,7 +287,15 @@ func (c *fileCtx) mk(t *Ty, id string, konst bool) string {
 		if konst {
 			panic("mk: const func")
 		}
-		return "func() " + c.ty(t.Elem) + " { return " + c.mk(t.Elem, id, konst) + " }"
+		var ps []string
+		for i, x := range t.Params {
+			if t.Var && i == len(t.Params)-1 {
+				ps = append(ps, "_ ..."+c.ty(x.Elem))
+				continue
+			}
+			ps = append(ps, "_ "+c.ty(x))
+		}
+		return "func(" + strings.Join(ps, ", ") + ") " + c.ty(t.Elem) + " { return " + c.mk(t.Elem, id, konst) + " }"
 	case "struct":
 		return c.ty(t) + "{ID_: " + id + "}"
 	case "iface":
